@@ -200,7 +200,10 @@ func (fr *Frame) call(st *State, in ssa.Instruction, c *ssa.CallCommon, v ssa.Va
 					}
 					names = append(names, n)
 				}
-				return fr.applyContract(st, sp, nil, sig, args, names, sp.Name)
+				// `fn` names the function value that is called
+				names = append(names, "fn")
+				full := append(append([]Val{}, args...), fv)
+				return fr.applyContract(st, sp, nil, sig, full, names, sp.Name)
 			}
 		}
 		r.abstracted["dynamic call in "+fr.fn.Name()] = true
